@@ -44,3 +44,33 @@ for cls, f in (("Isomorphism", F), ("ParallelSpecFinder", "comb_spec_searcher/bi
                  "exists(lambda k: at('loop0', len(stack)) <= k and k < len(stack) and stack[k][1] == i)))"],
                  modifies=["*stack"])},
              modifies=["*stack"])
+
+# ------------------------------------------------------------------ C18: Bijection._populate_json_map
+# every entry of a map keyed by pairs of classes arrives in the two-level JSON map under the pair of identifiers
+from .common import CombClass as _CC
+AnyV = Opaque("Any")
+PairK = Tup(_CC, _CC)
+_JM = Dict(Str, Dict(Str, AnyV))
+_ENTRY = ("id_map[{k}[0]] in json_map and id_map[{k}[1]] in json_map[id_map[{k}[0]]] and "
+          "json_map[id_map[{k}[0]]][id_map[{k}[1]]] == tuple_map[{k}]")
+contract(F, "Bijection._populate_json_map", props=["C18"], aliases={"Any": AnyV, "CombClass": _CC, "PairK": PairK},
+         params={"tuple_map": Dict(PairK, AnyV), "json_map": _JM, "id_map": Dict(_CC, Str)},
+         requires=["forall(lambda k=PairK: implies(k in tuple_map, k[0] in id_map and k[1] in id_map))",
+                   # identifiers are distinct for distinct classes (they are positions in the class array)
+                   "forall(lambda a=CombClass, b=CombClass: implies(a in id_map and b in id_map and id_map[a] == id_map[b], a == b))",
+                   "len(json_map) == 0"],
+         ensures=["forall(lambda k=PairK: implies(k in tuple_map, " + _ENTRY.format(k="k") + "))"],
+         loops={0: dict(ghost_before=[
+             # pairs of classes get distinct pairs of identifiers (consequence of the precondition, proved once)
+             "assert forall(lambda k=PairK, l=PairK: implies(k in tuple_map and l in tuple_map and "
+             "id_map[k[0]] == id_map[l[0]] and id_map[k[1]] == id_map[l[1]], k == l))"],
+             invariant=[
+             "forall(lambda j: implies(0 <= j and j < _i0, id_map[_keys0[j][0]] in json_map))",
+             "forall(lambda j: implies(0 <= j and j < _i0, id_map[_keys0[j][1]] in json_map[id_map[_keys0[j][0]]]))",
+             "forall(lambda j: implies(0 <= j and j < _i0, json_map[id_map[_keys0[j][0]]][id_map[_keys0[j][1]]] == tuple_map[_keys0[j]]))",
+             # the inner dictionaries are distinct objects created here
+             "forall(lambda s=Str: implies(s in json_map, fresh(json_map[s])))",
+             "forall(lambda s=Str, t=Str: implies(s in json_map and t in json_map and s != t, not same(json_map[s], json_map[t])))"],
+             modifies=["*json_map", "all:Dict(Str, Any)"])},
+         modifies=["*json_map", "all:Dict(Str, Any)"],
+         notes="needs distinct identifiers for distinct classes (established by _classes_to_array)")
